@@ -82,7 +82,9 @@ func (r *runner) fid(vid uint32, k int, c string) string {
 	return needle.NewFileId(needle.VolumeId(vid), uint64(k), cookies[c]).String()
 }
 
-func (r *runner) write(vid uint32, e tr.Ev) {
+func (r *runner) write(vid uint32, e tr.Ev) { r.writeOpt(vid, e, false) }
+
+func (r *runner) writeOpt(vid uint32, e tr.Ev, fsync bool) {
 	m := metas[tr.S(e, "m")]
 	body := datas[tr.S(e, "d")]
 	if m.gz {
@@ -116,6 +118,9 @@ func (r *runner) write(vid uint32, e tr.Ev) {
 	}
 	if m.ttl != "" {
 		q = append(q, "ttl="+m.ttl)
+	}
+	if fsync {
+		q = append(q, "fsync=true")
 	}
 	if len(q) > 0 {
 		u += "?" + strings.Join(q, "&")
@@ -324,6 +329,72 @@ func (r *runner) runExec(ex []tr.Ev) []tr.Ev {
 	return out
 }
 
+// runConc: concurrent execution (C38). The reset line carries "plan": one list of operations per
+// process; every process logs call before sending and ret after the response, into one buffer under
+// one mutex (the only ordering source). Afterwards every (key, cookie) pair is read sequentially.
+func (r *runner) runConc(ex []tr.Ev, batched bool) []tr.Ev {
+	ctx := context.Background()
+	var mu sync.Mutex
+	out := []tr.Ev{ex[0]}
+	emit := func(e tr.Ev) {
+		mu.Lock()
+		out = append(out, e)
+		mu.Unlock()
+	}
+	keys := tr.Ints(ex[0]["keys"])
+	cks := tr.Strs(ex[0]["cookies"])
+	plan := tr.List(ex[0]["plan"])
+	vid, err := r.c.NewVolume("", "000", "")
+	if err != nil {
+		tr.Fatal("new volume: %v", err)
+	}
+	defer r.admin(func(c volume_server_pb.VolumeServerClient) error {
+		_, err := c.VolumeDelete(ctx, &volume_server_pb.VolumeDeleteRequest{VolumeId: vid})
+		return err
+	})
+	doOp := func(p int, op tr.Ev) {
+		call := tr.Ev{"ev": "call", "p": p, "op": tr.S(op, "op"), "k": tr.I(op, "k"), "c": tr.S(op, "c"),
+			"d": tr.S(op, "d"), "m": tr.S(op, "m")}
+		emit(call)
+		var ret tr.Ev
+		switch tr.S(op, "op") {
+		case "write":
+			e := tr.Ev{"k": op["k"], "c": op["c"], "d": op["d"], "m": op["m"]}
+			r.writeOpt(vid, e, batched)
+			ret = tr.Ev{"ev": "ret", "p": p, "res": e["res"], "status": e["status"]}
+		case "delete":
+			e := tr.Ev{"k": op["k"], "c": op["c"]}
+			r.del(vid, e)
+			ret = tr.Ev{"ev": "ret", "p": p, "res": e["res"], "status": e["status"]}
+		case "read":
+			ret = r.read(vid, tr.I(op, "k"), tr.S(op, "c"))
+			ret["ev"] = "ret"
+			ret["p"] = p
+		}
+		emit(ret)
+	}
+	var wg sync.WaitGroup
+	start := make(chan struct{})
+	for pi, ops := range plan {
+		wg.Add(1)
+		go func(p int, ops []interface{}) {
+			defer wg.Done()
+			<-start
+			for _, o := range ops {
+				doOp(p, o.(map[string]interface{}))
+			}
+		}(pi+1, tr.List(ops))
+	}
+	close(start)
+	wg.Wait()
+	for _, k := range keys {
+		for _, c := range cks {
+			doOp(1, tr.Ev{"op": "read", "k": k, "c": c, "d": "", "m": ""})
+		}
+	}
+	return out
+}
+
 func main() {
 	o := tr.ParseFlags()
 	w := tr.NewWriter(o.Out)
@@ -334,6 +405,11 @@ func main() {
 	}
 	defer c.Close()
 	execs := tr.ReadScript(o.Script)
+	batched := o.Mode == "conc-batched"
+	if batched {
+		// the batched (async request) write path is only taken for fsync writes while the store is stopping
+		c.Volumes[0].Server.SetStopping()
+	}
 	results := make([][]tr.Ev, len(execs))
 	var wg sync.WaitGroup
 	next := make(chan int, len(execs))
@@ -342,13 +418,20 @@ func main() {
 	}
 	close(next)
 	workers := 8
+	if strings.HasPrefix(o.Mode, "conc") {
+		workers = 3
+	}
 	for wk := 0; wk < workers; wk++ {
 		wg.Add(1)
 		go func() {
 			defer wg.Done()
 			r := &runner{c: c, url: c.Volumes[0].Url, http: &http.Client{Timeout: 30 * time.Second}}
 			for i := range next {
-				results[i] = r.runExec(execs[i])
+				if strings.HasPrefix(o.Mode, "conc") {
+					results[i] = r.runConc(execs[i], batched)
+				} else {
+					results[i] = r.runExec(execs[i])
+				}
 			}
 		}()
 	}
